@@ -108,6 +108,12 @@ class FlowFields(ImageBatch):
             batch._axes = axes[0]
         return batch
 
+    def append(self: TFlowFields, other: ImageBatch) -> TFlowFields:
+        r"""Append flow fields of another batch, expressed with respect to the vector axes of this batch."""
+        if isinstance(other, FlowFields) and other.axes() != self.axes():
+            other = other.axes(self.axes())
+        return super().append(other)
+
     def _make_subitem(self, data: Tensor, grid: Grid) -> Union[FlowField, Image]:
         r"""Create FlowField in __getitem__. Can be overridden by subclasses to return a subtype."""
         if data.shape[0] == data.ndim - 1:
